@@ -200,6 +200,8 @@ def main():
                 pass
     print("candidates: %d (already done %d)" % (len(cands), len(done)), flush=True)
     env = {"CARGO_TARGET_DIR": R + "/target", "CARGO_NET_OFFLINE": "true", "PV_REPO": R, "PV_VERIF": V}
+    # the checks build their own harness: they must not inherit the repository's target directory
+    env_checks = {"CARGO_NET_OFFLINE": "true", "PV_REPO": R, "PV_VERIF": V}
     n = 0
     for f, i, op, old, new in cands:
         if n >= MAX:
@@ -226,7 +228,7 @@ def main():
                 killed = []
                 exit2 = []
                 for c in CHECKS:
-                    rc, out = sh("./check %s quick" % c, cwd=V, env=env, timeout=1800)
+                    rc, out = sh("./check %s quick" % c, cwd=V, env=env_checks, timeout=1800)
                     if rc == 1:
                         killed.append(c)
                     elif rc != 0:
